@@ -1,0 +1,60 @@
+//go:build verif
+
+// Verification hooks (build tag verif) for property C07: the chunk meta of one record marshalled with MarshalChunkMeta
+// (the layout used under chunk-meta-compress-mode = self; the caller selects the mode) together with the column-name
+// dictionary built while marshalling, and read back with UnmarshalChunkMeta. No behaviour of its own.
+package immutable
+
+import (
+	"bytes"
+
+	"github.com/openGemini/openGemini/lib/record"
+)
+
+// VerifChunkMetaSelf encodes rec through the real chunk builder and marshals the resulting chunk meta with
+// MarshalChunkMeta. It returns the chunk meta field by field with those bytes, the dictionary (header values in index
+// order) and whether UnmarshalChunkMeta with that dictionary returns the same chunk meta.
+func VerifChunkMetaSelf(rec *record.Record, maxRowsPerSegment, maxSegments int) (VerifChunkMeta, []string, bool, error) {
+	b := NewChunkDataBuilder(maxRowsPerSegment, maxSegments)
+	b.chunkMeta = &ChunkMeta{}
+	imp := &TsChunkDataImp{}
+	if _, err := imp.EncodeChunk(b, 1, 0, rec, nil, true); err != nil {
+		return VerifChunkMeta{}, nil, false, err
+	}
+	cm := b.chunkMeta
+	ctx := GetChunkMetaCodecCtx()
+	defer ctx.Release()
+	buf, err := MarshalChunkMeta(ctx, cm, nil)
+	if err != nil {
+		return VerifChunkMeta{}, nil, false, err
+	}
+	m := verifChunkMeta(cm)
+	m.Bytes = buf
+	header := append([]string{}, ctx.GetHeader().values...)
+
+	rctx := GetChunkMetaCodecCtx()
+	defer rctx.Release()
+	tr := &Trailer{}
+	hdr := &ChunkMetaHeader{}
+	ctx.GetHeader().CopyTo(hdr)
+	tr.SetChunkMetaHeader(hdr)
+	rctx.SetTrailer(tr)
+	got := &ChunkMeta{}
+	rest, err := UnmarshalChunkMeta(rctx, got, buf)
+	if err != nil {
+		return m, header, false, nil
+	}
+	same := len(rest) == 0 && got.sid == cm.sid && got.offset == cm.offset && got.size == cm.size &&
+		len(got.timeRange) == len(cm.timeRange) && len(got.colMeta) == len(cm.colMeta)
+	for i := 0; same && i < len(cm.timeRange); i++ {
+		same = got.timeRange[i] == cm.timeRange[i]
+	}
+	for i := 0; same && i < len(cm.colMeta); i++ {
+		a, c := &got.colMeta[i], &cm.colMeta[i]
+		same = a.name == c.name && a.ty == c.ty && bytes.Equal(a.preAgg, c.preAgg) && len(a.entries) == len(c.entries)
+		for j := 0; same && j < len(c.entries); j++ {
+			same = a.entries[j] == c.entries[j]
+		}
+	}
+	return m, header, same, nil
+}
